@@ -108,7 +108,7 @@ class WouldBlock(Exception):
 
 
 REPORTS = [(1, 1), (5, 12), (24, 80), (1000, 1), (123456, 7)]
-AHEAD = ["", "a", "ab\x1b[5;", "\x1b[A", "\x1b[", "7;9R", "\x1b[;5R", "\x1b[5;R", "\n\r\n", "\xe9", "\x1b[2;3", "R", "\x1bOP\x1b[1;5"]
+AHEAD = ["", "a", "ab\x1b[5;", "\x1b[A", "\x1b[", "7;9R", "\x1b[;5R", "\x1b[5;R", "\n\r\n", "\xe9", "\x1b[2;3", "R", "\x1bOP\x1b[1;5", "the quick brown fox jumps over the lazy dog 12"]
 AFTER = ["", "x\x1b[3;4R"]
 
 
